@@ -248,7 +248,7 @@ func (l *LibDefaults) parseLines(lines []string) error {
 			t := strings.Split(p[1], ",")
 			var v []int
 			for _, s := range t {
-				i, err := strconv.ParseInt(s, 10, 32)
+				i, err := strconv.ParseInt(strings.TrimSpace(s), 10, 32)
 				if err != nil {
 					return InvalidErrorf("libdefaults section line (%s): %v", line, err)
 				}
